@@ -52,9 +52,50 @@ const MAX_IDS: u8 = 4;
 enum SimKey {
     Real(RealWrapped<CS>),
     Synth { id: BaseId, payload: Vec<u8> },
+    /// The payload as ONE text item (CBOR text string) - large single items take other paths
+    /// through an encoder than many small ones.
+    Text { id: BaseId, text: String },
+    /// The payload as ONE byte-string item.
+    Blob { id: BaseId, data: ByteItem },
     /// A key whose encoding fails part of the way through (the injected fault of this engine:
     /// the one failure a caller can cause inside `insert` without a seam below the store).
     Poison { id: BaseId, bomb: Bomb },
+}
+
+/// A byte vector that serialises as a single bytes item (not as a sequence of integers).
+#[derive(Clone)]
+struct ByteItem(Vec<u8>);
+
+impl Serialize for ByteItem {
+    fn serialize<S: serde::Serializer>(&self, s: S) -> Result<S::Ok, S::Error> {
+        s.serialize_bytes(&self.0)
+    }
+}
+
+impl<'de> Deserialize<'de> for ByteItem {
+    fn deserialize<D: serde::Deserializer<'de>>(d: D) -> Result<Self, D::Error> {
+        struct V;
+        impl<'de> serde::de::Visitor<'de> for V {
+            type Value = ByteItem;
+            fn expecting(&self, f: &mut std::fmt::Formatter<'_>) -> std::fmt::Result {
+                f.write_str("bytes")
+            }
+            fn visit_bytes<E: serde::de::Error>(self, v: &[u8]) -> Result<ByteItem, E> {
+                Ok(ByteItem(v.to_vec()))
+            }
+            fn visit_byte_buf<E: serde::de::Error>(self, v: Vec<u8>) -> Result<ByteItem, E> {
+                Ok(ByteItem(v))
+            }
+            fn visit_seq<A: serde::de::SeqAccess<'de>>(self, mut a: A) -> Result<ByteItem, A::Error> {
+                let mut v = Vec::new();
+                while let Some(b) = a.next_element::<u8>()? {
+                    v.push(b);
+                }
+                Ok(ByteItem(v))
+            }
+        }
+        d.deserialize_byte_buf(V)
+    }
 }
 
 #[derive(Clone, Deserialize)]
@@ -73,7 +114,7 @@ impl Identified for SimKey {
     fn id(&self) -> Result<BaseId, IdError> {
         match self {
             SimKey::Real(k) => k.id(),
-            SimKey::Synth { id, .. } | SimKey::Poison { id, .. } => Ok(*id),
+            SimKey::Synth { id, .. } | SimKey::Poison { id, .. } | SimKey::Text { id, .. } | SimKey::Blob { id, .. } => Ok(*id),
         }
     }
 }
@@ -127,19 +168,27 @@ fn store_id(i: u8) -> BaseId {
 #[derive(Clone, Debug, PartialEq, Eq, Serialize, Deserialize)]
 enum KeyRef {
     Pool { idx: u8 },
-    Synth { tag: u8, len: u16 },
+    Synth {
+        tag: u8,
+        len: u32,
+        /// 0 = sequence of small items, 1 = one text item, 2 = one bytes item.
+        #[serde(default)]
+        shape: u8,
+    },
 }
 
 fn materialise(k: &KeyRef, pool: &[SimKey]) -> SimKey {
     match k {
         KeyRef::Pool { idx } => pool[usize::from(*idx) % pool.len()].clone(),
-        KeyRef::Synth { tag, len } => {
-            let payload = (0..*len)
+        KeyRef::Synth { tag, len, shape } => {
+            let payload: Vec<u8> = (0..*len)
                 .map(|i| tag.wrapping_add((i as u8).wrapping_mul(7)))
                 .collect();
-            SimKey::Synth {
-                id: store_id(100 + (*tag % 8)),
-                payload,
+            let id = store_id(100 + (*tag % 8));
+            match shape {
+                1 => SimKey::Text { id, text: payload.iter().map(|b| char::from(b'a' + b % 26)).collect() },
+                2 => SimKey::Blob { id, data: ByteItem(payload) },
+                _ => SimKey::Synth { id, payload },
             }
         }
     }
@@ -210,15 +259,21 @@ fn gen_key(rng: &mut Rng) -> KeyRef {
             idx: rng.below(POOL_SIZE as u64) as u8,
         }
     } else {
-        let len = match rng.below(4) {
+        // Sizes: small, medium, and the boundaries where encoders, buffers and length
+        // prefixes change behaviour.
+        const EDGES: [u64; 16] = [23, 24, 255, 256, 257, 511, 512, 513, 1023, 1024, 4095, 4096, 4097, 8192, 65535, 65536];
+        let len = match rng.below(6) {
             0 => rng.below(4),
             1 => rng.below(24),
             2 => rng.below(100),
-            _ => rng.below(400),
-        } as u16;
+            3 => rng.below(400),
+            4 => EDGES[rng.usize_below(EDGES.len())],
+            _ => rng.below(6000),
+        } as u32;
         KeyRef::Synth {
             tag: rng.below(256) as u8,
             len,
+            shape: rng.below(3) as u8,
         }
     }
 }
@@ -1059,7 +1114,7 @@ fn map_op(op: &Op, fh: impl Fn(u8) -> u8, fi: impl Fn(u8) -> u8) -> Op {
 }
 
 fn simple_key() -> KeyRef {
-    KeyRef::Synth { tag: 0, len: 0 }
+    KeyRef::Synth { tag: 0, len: 0, shape: 0 }
 }
 
 fn simpler(op: &Op) -> Vec<Op> {
